@@ -10,6 +10,7 @@ import WowVerif.Model.FrameExpect
 import WowVerif.Model.Geometry
 import WowVerif.Model.SemIO
 import WowVerif.Model.SemNorm
+import WowVerif.Model.Session
 import WowVerif.Model.SemSize
 import WowVerif.Model.SemLimits
 import WowVerif.Model.UpdateMask
@@ -537,6 +538,61 @@ def loadLine (st : DState) (line : String) : DState :=
 def semHandle (st : DState) (ws : List String) : Option String :=
   match ws with
   | ["wskeys"] => some s!"{st.wsprogs.size}"
+  | ["session", e, d, items] =>
+    -- C02 + C01 end to end (Model/Session.lean; Thm/C02c.lean): a stream of arbitrary messages — `g:key:seed:maxLen` a generated canonical
+    -- value of container `key`, `u:opcode:len` a frame with an opcode outside the table, `x:key:hex` the opcode of `key` over the given
+    -- body bytes — written by `writeFrame`, then read back by `Session.readMsg` until the stream ends
+    match parseExp e, parseDir d with
+    | some ex, some dr =>
+      let kinds := if d == "client" then ["cmsg", "msg"] else ["smsg", "msg"]
+      let entries : List (Nat × String × Sem.Members) := st.corpus.toList.filterMap fun ((k, (op, c)) : String × Nat × Sem.Members) =>
+        match k.splitOn ":" with
+        | [lib, kind, name] => if lib == e && kinds.contains kind && !(name.splitOn "#").length > 1 then some (op, name, c) else none
+        | _ => none
+      let table : Session.Table := entries.map fun (op, _, c) => (op, c)
+      let nameOf (op : Nat) : String := match entries.find? (fun x => x.1 == op) with | some (_, n, _) => n | none => "?"
+      let frames : Option (List (List UInt8)) := (items.splitOn ",").mapM fun (it : String) =>
+        match it.splitOn ":" with
+        | ["g", lib, kind, name, seed, maxLen] =>
+          match st.corpus.get? s!"{lib}:{kind}:{name}", seed.toNat?, maxLen.toNat? with
+          | some (op, c), some seed, some maxLen =>
+            if (Sem.firstPrim c).isSome then none else
+            match Sem.genContainer c seed maxLen 1000000 with
+            | some vs => match Sem.encode c vs with
+              | some body => match Frame.writeFrame ex dr op body with | .ok f => some f | .error _ => none
+              | none => none
+            | none => none
+          | _, _, _ => none
+        | ["u", op, len] =>
+          match op.toNat?, len.toNat? with
+          | some op, some len => match Frame.writeFrame ex dr op (List.replicate len 0x5A) with | .ok f => some f | .error _ => none
+          | _, _ => none
+        | ["x", lib, kind, name, hex] =>
+          match st.corpus.get? s!"{lib}:{kind}:{name}", (if hex == "-" then some [] else unhex hex) with
+          | some (op, _), some body => match Frame.writeFrame ex dr op body with | .ok f => some f | .error _ => none
+          | _, _ => none
+        | _ => none
+      match frames with
+      | none => some "bad-item"
+      | some fs =>
+        let stream := fs.foldl (· ++ ·) []
+        let rec go (fuel : Nat) (bs : List UInt8) (acc : String) : String :=
+          match fuel with
+          | 0 => acc
+          | fuel + 1 =>
+            if bs.isEmpty then acc else
+            match Session.readMsg .opcodeEnum ex dr table bs with
+            | .error _ => acc ++ s!" io@{stream.length - bs.length}"
+            | .ok (o, rest) =>
+              let pos := stream.length - rest.length
+              let t := match o with
+                | .msg op _ => s!" {nameOf op}@{pos}"
+                | .unknownOpcode op => s!" unknown:{op}@{pos}"
+                | .badBody op (.unsupported _) => s!" prim:{nameOf op}@{pos}"
+                | .badBody _ _ => s!" bad@{pos}"
+              go fuel rest (acc ++ t)
+        some s!"{if stream.isEmpty then "-" else hexOf stream} {go (fs.length + 1) stream "ok"} end={stream.length}"
+    | _, _ => some "bad-op"
   | ["progeq", kind, specKey, rustKey] =>
     -- C01 / C03 / C04 (code side): is the program translated from the generated Rust writer (`w`) / reader (`r`) the per-enumerator
     -- normal form of the program translated from the wowm definition (for readers: with the roles erased)?
